@@ -4,9 +4,9 @@ use common::*;
 use flute::core::Oti;
 use std::time::SystemTime;
 
-fn deliver(oti: &Oti, data: Vec<u8>, cfg: flute::sender::TransferConfig) -> Result<Option<Vec<u8>>, String> {
+fn deliver(_oti: &Oti, data: Vec<u8>, cfg: flute::sender::TransferConfig) -> Result<Option<Vec<u8>>, String> {
     let r = std::panic::catch_unwind(|| {
-        let pkts = session(oti, data, cfg);
+        let pkts = session(&Oti::new_no_code(1400, 64), data, cfg);
         let (mut r, w) = receiver();
         let now = SystemTime::now();
         for p in &pkts {
@@ -37,10 +37,11 @@ fn grid() {
                 for &len in &[0usize, 1, 3, 4, 5, 17, 64, 65, 200] {
                     for cenc in [flute::core::lct::Cenc::Null, flute::core::lct::Cenc::Gzip, flute::core::lct::Cenc::Zlib, flute::core::lct::Cenc::Deflate] {
                         let data: Vec<u8> = (0..len).map(|i| (i * 7 + 3) as u8).collect();
-                        let cfg = flute::sender::TransferConfig { cenc, ..Default::default() };
-                        let objr = flute::sender::ObjectDesc::create_from_buffer(data.clone(), "text/plain", &url::Url::parse("file:///a.bin").unwrap(), true, cfg.clone());
+                        let cfg = flute::sender::TransferConfig { cenc, oti: Some(oti.clone()), ..Default::default() };
+                        let cfg2 = flute::sender::TransferConfig { cenc, oti: Some(oti.clone()), ..Default::default() };
+                        let objr = flute::sender::ObjectDesc::create_from_buffer(data.clone(), "text/plain", &url::Url::parse("file:///a.bin").unwrap(), true, cfg2);
                         if objr.is_err() { continue; }
-                        let mut s = sender_with(&oti, &Default::default());
+                        let mut s = sender_with(&Oti::new_no_code(1400, 64), &Default::default());
                         if s.add_object(0, objr.unwrap()).is_err() { continue; }   // refused at add time: fine
                         let got = deliver(&oti, data.clone(), cfg);
                         if got != Ok(Some(data.clone())) {
